@@ -59,17 +59,37 @@ ROUND3 = {
  "c20-7": ("C20", "the writer folds the inverse viewport transform into the node's own matrix in place", "a non-identity viewBox, a shape that keeps its own transform, and a second write of the same tree object", "caught from the start (writing-is-an-observer oracle had just been added)"),
  "c20-8": ("C20", "a module-level memo of attribute text keyed by value (True == 1 == 1.0)", "a constructor-built Path(d=...) whose values hold pathd_loaded=True is the first 'one' the process formats: every later 1.0 is written 'True'", "missed at first; caught after comparing the text with what a pristine instance of the library writes for the same source, and building paths with the d keyword"),
 }
+ROUND4 = {
+ "c09-9": ("C09", "the lexer's 'does another argument group follow?' peeks at one character instead of matching a number token", "a lone '.', '-.' or '+.' after a move's first pair ('M1,1 .'): the implicit-lineto loop appends a Line with a None end for ever (no return, unbounded memory)", "hung my harness at first (only some parses ran under the step budget, and nothing bounded memory); now every parse of the check runs under the deterministic step budget, chunk children have an address-space cap, and the hang is reported as a steps violation"),
+ "c09-10": ("C09", "Arc parameterisation treats an arc as void only when its end points are exactly identical (was: within 1e-12)", "a chord below ~1e-154 ('M0,0 A 1 1 0 0 0 1e-200 0'): ZeroDivisionError out of parse, or an arc retained with NaN centre and sweep", "missed at first (no literal that small next to ordinary ones); caught after adding fragments with chords, radii and controls at the edges of the double range"),
+ "c10-9": ("C10", "preserveAspectRatio split on any white space with a dispatch on the token count that has no else", "a preserveAspectRatio value of three or more tokens on an svg/image/pattern: UnboundLocalError escapes SVG.parse", "caught from the start (preserveAspectRatio faults had been added after round 3's reach audit)"),
+ "c10-10": ("C10", "get_element_by_url indexes the first IRI match instead of looping over the matches", "a clip-path value that is not a complete url(...) - the legal keywords none / inherit, an empty value, '#c', 'url(#c' - on any element: IndexError after the guarded construction block", "missed at first (clip-path only ever held well-formed references); caught after clip-path became a fault target and faults may add an attribute the element did not state (clip-path, transform, style, paint)"),
+ "c16-9": ("C16", "Arc.reverse folds whole turns out of the sweep, comparing with >=", "a single arc that is exactly one full turn (start == end, |sweep| = tau)", "caught from the start (full-turn arcs built through the API were added in round 2)"),
+ "c16-10": ("C16", "runs of 25 or more segments are reversed through one slice assignment on the path (Path.__setitem__ validates and re-links)", "a subpath of at least 25 segments reversed through the path or a view", "missed at first (subpaths had at most a dozen segments); caught after adding a long-subpath stratum"),
+ "c17-9": ("C17", "Path() + shape returns Path(shape) (pending transform, the shape's paint) instead of the baked outline appended to the empty path", "an empty left operand and a shape with a transform as right operand, then a further append", "missed at first (the left operand was never empty); caught after adding empty left operands and appends that continue after the shape"),
+ "c17-10": ("C17", "path += other_path drops the operand's leading move when it goes to the current point", "a Path operand whose first move coincides with the left operand's end, followed by a close or a relative move in a later piece", "missed at first (operand moves never coincided with the current point); caught after adding coinciding moves"),
+ "c18-9": ("C18", "copy(subpath) is a second window on the same backing path", "copy / * / + on a Subpath, then any mutation of either side", "caught from the start"),
+ "c18-10": ("C18", "a group copy refers to the same Image children", "a Group with an Image child, copy / x*M / abs, then an in-place transform or attribute edit of one side", "missed at first (no generated group held an Image); caught after adding Image (and other non-shape) children to groups"),
+ "c20-9": ("C20", "SVG.viewbox_transform is computed once and kept", "a parse or first write that reads viewbox_transform, then width/height/viewbox changed on the object, then a write", "missed at first (trees were written as parsed or built); caught after adding the touch phase: edits through the objects between parsing/building and writing, here the svg's size and viewBox"),
+ "c20-10": ("C20", "the writer's trailing 'write id' block removed: ids only travel with the copied source attributes", "an element whose .id was assigned or changed on the object (r.id = 'shape0')", "caught from the start for built shapes (their ids are assigned on the object); the touch phase adds renamed and cleared ids of parsed elements"),
+}
+
+
 def main():
     only = sys.argv[1:]
     table = dict(NEEDS)
     table.update(ROUND2)
     table.update(ROUND3)
+    table.update(ROUND4)
     for sid, (prop, what, needs, history) in sorted(table.items()):
         if only and sid not in only:
             continue
         p, i = sid.split("-")
         src = "/tmp/seed-%s/_out" % p
-        if int(i) > 6:
+        if int(i) > 8:
+            src = "/tmp/seed4-%s/_out" % p
+            i = str(int(i) - 8)
+        elif int(i) > 6:
             src = "/tmp/seed3-%s/_out" % p
             i = str(int(i) - 6)
         elif int(i) > 3:
